@@ -105,6 +105,19 @@ let run_case (line : Stdlib.String.t) =
      let err = next_z t in let inf = next_bool t in let maxe = next_z t in let l = next_zlist t in
      let srcs = next_list (fun t -> let k = next_bool t in let es = next_list next_zlist t in (k, es)) t in
      out_list (fun (k, es) -> out_bool k; out_list out_zlist es) (sources_accept err inf maxe l srcs)
+   | "full" ->
+     (* the whole model of a Readline call: default table of a keymap + key loop + editor commands *)
+     let vi = next_bool t in let cm = next_bool t in let km = next_zlist t in
+     let h = next_list next_zlist t in
+     let ins = next_list (fun t -> let k = next_int t in let bs = next_zlist t in if k = 0 then Chunk bs else Eof) t in
+     let tbl = (match List.find_opt (fun (n, _) -> cmp_zl n km = 0) effective_binds with Some (_, b) -> b | None -> []) in
+     let o = loop (ed_exec true (z_of_int (-1))) (nat_of_int 100000) cm tbl (init_state vi (Ok (ed_init vi h))) ins in
+     let (code, st) = (match o with Waiting s -> (0, s) | Ended s -> (1, s) | NoFuel s -> (2, s) | Returned s -> (3, s)) in
+     out_int code;
+     (match st.l_app with
+      | Ok e -> out_str "S"; out_zlist e.line; out_z e.cpos; out_z e.accept_err; out_zlist st.l_keys.k_buf
+      | Panic site -> out_str "PANIC"; out_z site
+      | OutOfFuel -> out_str "OUTOFFUEL")
    | "edcmds" -> out_list out_zlist modelled_commands
    | "quote" -> let c = next_z t in out_zlist (quote c)
    | _ -> out_str ("UNKNOWN-OP " ^ op));
